@@ -8,6 +8,7 @@ from props.common import account
 COARSENINGS = ["aggregation", "smoothed_aggregation", "ruge_stuben", "smoothed_aggr_emin"]
 MODEL_RELAX = ["damped_jacobi", "spai0", "gauss_seidel"]
 DRIVERS = ["amg_" + c for c in COARSENINGS]
+MAX_MODEL_OUT = 250000
 
 def float32(x):
     import struct
@@ -83,7 +84,7 @@ def run_cases(ctx, cases, env=None):
     impl = {}
     for d, cs in by_drv.items():
         impl.update(ctx["run_driver"](ctx["cpp"][d], [c.impl_line() for c in cs], env_extra=env, timeout=1500))
-    mlines = []; levels = {}; fails = []
+    mlines = []; levels = {}; fails = []; skipped = set()
     for c in cases:
         o = impl.get(c.cid)
         if o is None or o.startswith(("CRASH",)):
@@ -91,16 +92,26 @@ def run_cases(ctx, cases, env=None):
                               theorem="implementation crashed or gave no answer (amg driver)"))
             continue
         if o.startswith(("EXC", "UNSUPPORTED")):
-            mlines.append(c.model_line([])); continue
+            # construction failed with an exception (e.g. skyline LU zero pivot on the coarse
+            # matrix): an admissible outcome (C10); nothing to compare without a hierarchy
+            ctx["stats"].setdefault("impl_exceptions", 0); ctx["stats"]["impl_exceptions"] += 1
+            skipped.add(c.cid); continue
         ts, lv = transfers_from_output(o)
         levels[c.cid] = lv
+        if c.relax not in MODEL_RELAX:
+            ctx["stats"].setdefault("oracle_only_relax", 0); ctx["stats"]["oracle_only_relax"] += 1
+            skipped.add(c.cid); continue
+        if len(o) > MAX_MODEL_OUT:
+            # rational blow-up: too expensive for the model run; counted, not compared
+            ctx["stats"].setdefault("skipped_too_large", 0); ctx["stats"]["skipped_too_large"] += 1
+            skipped.add(c.cid); continue
         mlines.append(c.model_line(ts if ts is not None else []))
     model = ctx["run_driver"](ctx["model"], mlines, timeout=1500)
     account(ctx, [c.impl_line() for c in cases], impl)
     for c in cases:
         a, b = impl.get(c.cid), model.get(c.cid)
         if a is None or a.startswith("CRASH"): continue
-        if a.startswith("UNSUPPORTED"): continue
+        if a.startswith("UNSUPPORTED") or c.cid in skipped: continue
         if a != b:
             ctx["stats"]["mismatches"] += 1
             # locate the first differing script segment
@@ -113,10 +124,12 @@ def run_cases(ctx, cases, env=None):
     return fails, impl, model, levels
 
 def rand_cfg(r, n, small_levels=True):
+    big = n > 10   # keep the exact rationals of larger cases affordable
     return dict(coarse_enough=r.choice([0, 1, 2, 3, 5, max(1, n // 2), n, n + 3]),
                 direct_coarse=r.choice([1, 1, 0]), max_levels=r.choice([4294967295, 4294967295, 1, 2, 3]),
-                npre=r.choice([1, 1, 2, 3, 0]), npost=r.choice([1, 1, 2, 3, 0]), ncycle=r.choice([1, 1, 2]),
-                pre_cycles=r.choice([1, 1, 2, 0]))
+                npre=r.choice([1, 1, 0] if big else [1, 1, 2, 3, 0]), npost=r.choice([1, 1, 0] if big else [1, 1, 2, 3, 0]),
+                ncycle=r.choice([1] if big else [1, 1, 2]),
+                pre_cycles=r.choice([1, 1, 0] if big else [1, 1, 2, 0]))
 
 def rand_cprm(r, coarsening):
     eps = r.choice(["1/4", "2/25", "1/8", "0", "1/2", "1/16"])
